@@ -224,7 +224,11 @@ class TableHistory:
             ctx.feature("max_rows_increment")
 
     # ---- reporting
+    note = ""
+
     def bad(self, what, msg):
+        if self.note:
+            msg += f" -- state after the refused call: {self.note}"
         self.ctx.violation(f"{self.name}/{self.op}-{what}", f"[{self.name} after {self.ops_done[-6:]}] {self.op}: {msg}")
 
     def fresh(self, rows=None, schema=None):
@@ -284,7 +288,11 @@ class TableHistory:
             if cleared_ok and self.M and len(self.t) == 0:
                 self.ctx.feature("set_columns:cleared-on-error")
                 self.M.clear()
-            self.verify(label="-after-refusal")
+            self.note = why
+            try:
+                self.verify(label="-after-refusal")
+            finally:
+                self.note = ""
             return
         self.bad("did-not-raise", f"{why}: returned {_short(r)}")
         raise Refused()
@@ -869,8 +877,7 @@ class TableHistory:
             except Refused:
                 return
             self.ops_done.append(op)
-            good = self.verify()
-            if not good or len(self.ctx.violations) > before:
+            if len(self.ctx.violations) > before or not self.verify():
                 return   # the model and the table have diverged; later reports would only repeat this one
         self.op = "final"
         self.op_iter()
